@@ -51,6 +51,10 @@ def main():
                     "origin": "written by an independent sub-agent given only the property text and a scratch worktree",
                     "confirmed_by_me": "tools/verify_seed.sh: demo exits 0 on the clean tree, 1 with the patch, and the 66 baseline tests still pass",
                     "sweep": res}
+            try:
+                meta["note"] = open(os.path.join(d, "note.txt")).read().strip()
+            except Exception:
+                pass
             json.dump(meta, open(os.path.join(d, "meta.json"), "w"), indent=1)
             print(sid, res.get("caught_by"), res.get("error", ""))
 
